@@ -31,6 +31,114 @@ Fixpoint run_ops {X O : Type} (def : O -> X -> bool) (app : O -> X -> X) (ops : 
   | o :: r => if def o x then run_ops def app r (app o x) else None
   end.
 
+(* ------------------------------------------------------------ a pool of objects
+   Several objects of one class live side by side (slots); besides the single-object operations
+   there are the special member functions, whose source is ANOTHER object or a temporary:
+     copy construction / copy assignment   slot t := copy of slot s (s = t: self-assignment)
+     move construction / move assignment   the same value; the source is moved-from afterwards:
+                                            valid but unspecified, so it is not looked at any more
+                                            until it is the target of a construction / assignment
+     construction / assignment from a temporary (an rvalue expression): X(...), f(x) for a function
+                                            that copies its argument, applies operations to the copy
+                                            and returns it by value, a + b
+   In /repo the three classes declare a virtual destructor and nothing else, so copy construction and
+   copy assignment are the implicit member-wise ones and NO move operation is declared: std::move(x)
+   and temporaries bind to the copy operations.  [copy] is that member-wise copy. *)
+Section Pool.
+Variables X O F : Type.
+Variable def : O -> X -> bool.       (* single-object operation defined *)
+Variable app : O -> X -> X.
+Variable copy : X -> X.
+Variable fresh : F -> X.             (* constructor call *)
+Variable bin_def : X -> X -> bool.   (* a + b defined *)
+Variable bin : X -> X -> X.
+
+Inductive exp :=
+| ESlot (s : nat)                    (* a named object *)
+| EFresh (f : F)                     (* X(...) *)
+| EOp (o : O) (e : exp)              (* f(e): the copy of e modified by o, returned by value *)
+| EBin (a b : exp).                  (* a + b *)
+
+(* (object, alive); alive = false: moved-from *)
+Definition pool := list (X * bool).
+Definition slot_get (p : pool) (i : nat) : option X :=
+  match nth_error p i with Some (x, true) => Some x | _ => None end.
+Fixpoint slot_put (p : pool) (i : nat) (v : X * bool) : pool :=
+  match p, i with
+  | [], _ => []
+  | _ :: r, 0 => v :: r
+  | h :: r, Datatypes.S i' => h :: slot_put r i' v
+  end.
+Definition slot_kill (p : pool) (i : nat) : pool :=
+  match nth_error p i with Some (x, _) => slot_put p i (x, false) | None => p end.
+
+Fixpoint eval (p : pool) (e : exp) : option X :=
+  match e with
+  | ESlot s => match slot_get p s with Some x => Some (copy x) | None => None end
+  | EFresh f => Some (fresh f)
+  | EOp o e' => match eval p e' with
+                | Some x => if def o x then Some (app o x) else None
+                | None => None
+                end
+  | EBin a b => match eval p a, eval p b with
+                | Some x, Some y => if bin_def x y then Some (bin x y) else None
+                | _, _ => None
+                end
+  end.
+
+Inductive kop :=
+| KOn (i : nat) (o : O)              (* a single-object operation on slot i *)
+| KLook (i : nat)                    (* nothing: slot i is inspected *)
+| KCopy (t s : nat)                  (* X n(s) replacing slot t, or t = s *)
+| KMove (t s : nat)                  (* X n(std::move(s)) replacing slot t, or t = std::move(s) *)
+| KTemp (t : nat) (e : exp).         (* X n(e) replacing slot t, or t = e, for an rvalue e *)
+
+(* None: outside the premises (an operation that is undefined in the C++, a moved-from or
+   non-existent slot used as anything but the target) *)
+Definition kstep (k : kop) (p : pool) : option pool :=
+  match k with
+  | KOn i o => match slot_get p i with
+               | Some x => if def o x then Some (slot_put p i (app o x, true)) else None
+               | None => None
+               end
+  | KLook i => match slot_get p i with Some _ => Some p | None => None end
+  | KCopy t s => match slot_get p s with
+                 | Some x => if t <? length p then Some (slot_put p t (copy x, true)) else None
+                 | None => None
+                 end
+  | KMove t s => match slot_get p s with
+                 | Some x => if t <? length p
+                             then Some (slot_put (if t =? s then p else slot_kill p s) t (copy x, true))
+                             else None
+                 | None => None
+                 end
+  | KTemp t e => match eval p e with
+                 | Some x => if t <? length p then Some (slot_put p t (x, true)) else None
+                 | None => None
+                 end
+  end.
+Fixpoint krun (ks : list kop) (p : pool) : option pool :=
+  match ks with
+  | [] => Some p
+  | k :: r => match kstep k p with Some p' => krun r p' | None => None end
+  end.
+
+(* every single-object operation occurring in a sequence satisfies ok *)
+Fixpoint exp_all (ok : O -> bool) (e : exp) : bool :=
+  match e with
+  | ESlot _ | EFresh _ => true
+  | EOp o e' => ok o && exp_all ok e'
+  | EBin a b => exp_all ok a && exp_all ok b
+  end.
+Definition kop_all (ok : O -> bool) (k : kop) : bool :=
+  match k with KOn _ o => ok o | KTemp _ e => exp_all ok e | _ => true end.
+End Pool.
+Arguments slot_get {X}. Arguments slot_put {X}. Arguments slot_kill {X}.
+Arguments eval {X O F}. Arguments kstep {X O F}. Arguments krun {X O F}.
+Arguments exp_all {O F}. Arguments kop_all {O F}.
+Arguments ESlot {O F}. Arguments EFresh {O F}. Arguments EOp {O F}. Arguments EBin {O F}.
+Arguments KOn {O F}. Arguments KLook {O F}. Arguments KCopy {O F}. Arguments KMove {O F}. Arguments KTemp {O F}.
+
 Section C11.
 Variable S : SOps.
 Variable junk : T S.        (* value of an uninitialised double *)
@@ -186,6 +294,57 @@ Definition gauss_weight (g : gm) : A := get (weight_ g) 0 0.
 Definition gauss_mean_el (g : gm) (i : nat) : A := get (mean_ g) i 0.
 Definition gauss_cov_el (g : gm) (i j : nat) : A := get (cov_ g) i j.
 
+(* the non-const overloads return a Ref / reference to the same cells: writing through them *)
+Definition gm_with (g : gm) (m c w : mx) : gm :=
+  mkGm (components g) (use_quat g) (dcc g) (dim g) (dl g) (dc g) (dn g) (dcov g) m c w.
+(* mean(i, j) = x;  covariance(i, j, k) = x;  weight(i) = x *)
+Definition gm_set_mean_el (g : gm) (i j : nat) (x : A) : gm := gm_with g (e_set (mean_ g) j i x) (cov_ g) (weight_ g).
+Definition gm_set_cov_el (g : gm) (i j k : nat) (x : A) : gm :=
+  gm_with g (mean_ g) (e_set (cov_ g) j (dcov g * i + k) x) (weight_ g).
+Definition gm_set_weight (g : gm) (i : nat) (x : A) : gm := gm_with g (mean_ g) (cov_ g) (e_set (weight_ g) i 0 x).
+(* mean(i) = v;  covariance(i) = m  (assignment to the returned block) *)
+Definition gm_set_mean (g : gm) (i : nat) (v : mx) : gm := gm_with g (e_set_block (mean_ g) 0 i v) (cov_ g) (weight_ g).
+Definition gm_set_cov (g : gm) (i : nat) (m : mx) : gm :=
+  gm_with g (mean_ g) (e_set_block (cov_ g) 0 (dcov g * i) m) (weight_ g).
+
+(* the harness writes the same distinct integers as gm_fill, but cell by cell through the per-component
+   element accessors:  for i, j: mean(i, j) = ..;  for i, k, j: covariance(i, j, k) = ..;  for i: weight(i) = ..
+   (loops flattened: t = i * dim + j, resp. t = (i * dcov + k) * dcov + j) *)
+Definition gm_fill_el (b : Z) (g : gm) : gm :=
+  let d := dim g in
+  let v := dcov g in
+  let n := components g in
+  let nm := Z.of_nat (d * n) in
+  let nc := Z.of_nat (v * (v * n)) in
+  let g1 := fold_left (fun g t => gm_set_mean_el g (t / d) (t mod d) (sofZ S (b + Z.of_nat t))) (seq 0 (d * n)) g in
+  let g2 := fold_left (fun g t => let col := t / v in
+                                  gm_set_cov_el g (col / v) (t mod v) (col mod v) (sofZ S (b + nm + Z.of_nat t)))
+                      (seq 0 (v * (v * n))) g1 in
+  fold_left (fun g i => gm_set_weight g i (sofZ S (b + nm + nc + Z.of_nat i))) (seq 0 n) g2.
+(* ... and through the block accessors:  for i: mean(i) = column, covariance(i) = block, weight(i) = .. *)
+Definition gm_fill_blk (b : Z) (g : gm) : gm :=
+  let d := dim g in
+  let v := dcov g in
+  let n := components g in
+  let nm := Z.of_nat (d * n) in
+  let nc := Z.of_nat (v * (v * n)) in
+  fold_left (fun g i =>
+               let g1 := gm_set_mean g i (mk d 1 (fun r _ => sofZ S (b + Z.of_nat (i * d + r)))) in
+               let g2 := gm_set_cov g1 i (mk v v (fun r k => sofZ S (b + nm + Z.of_nat ((i * v + k) * v + r)))) in
+               gm_set_weight g2 i (sofZ S (b + nm + nc + Z.of_nat i)))
+            (seq 0 n) g.
+
+(* the parts of a component that the algorithms address through the descriptors: the state part
+   (the first dim - dim_noise rows, resp. the top-left block) and the noise part
+   (mean(i).tail(dim_noise) / bottomRows(dim_noise), covariance(i).bottomRightCorner(dim_noise, dim_noise)) *)
+Definition e_rows_from (m : mx) (a : nat) : mx := mk (mrows m - a) (mcols m) (fun i j => get m (a + i) j).
+Definition e_rows_upto (m : mx) (a : nat) : mx := mk a (mcols m) (fun i j => get m i j).
+Definition e_block (m : mx) (r0 c0 h w : nat) : mx := mk h w (fun i j => get m (r0 + i) (c0 + j)).
+Definition gm_state_mean (g : gm) (i : nat) : mx := e_rows_upto (gm_mean g i) (dim g - dn g).
+Definition gm_noise_mean (g : gm) (i : nat) : mx := e_rows_from (gm_mean g i) (dim g - dn g).
+Definition gm_state_cov (g : gm) (i : nat) : mx := e_block (gm_cov g i) 0 0 (dcov g - dn g) (dcov g - dn g).
+Definition gm_noise_cov (g : gm) (i : nat) : mx := e_block (gm_cov g i) (dcov g - dn g) (dcov g - dn g) (dn g) (dn g).
+
 (* ------------------------------------------------------------ ParticleSet *)
 Record pset := mkPs { base : gm; state_ : mx }.
 
@@ -242,6 +401,26 @@ Definition ps_fill (b : Z) (p : pset) : pset :=
 
 Definition ps_state (p : pset) (i : nat) : mx := e_col (state_ p) i.
 Definition ps_state_el (p : pset) (i j : nat) : A := get (state_ p) j i.
+(* state(i, j) = x;  state(i) = v *)
+Definition ps_set_state_el (p : pset) (i j : nat) (x : A) : pset := mkPs (base p) (e_set (state_ p) j i x).
+Definition ps_set_state (p : pset) (i : nat) (v : mx) : pset := mkPs (base p) (e_set_block (state_ p) 0 i v).
+Definition ps_fill_el (b : Z) (p : pset) : pset :=
+  let g := gm_fill_el b (base p) in
+  let d := dim g in
+  let v := dcov g in
+  let n := components g in
+  let off := Z.of_nat (d * n + v * (v * n) + n) in
+  fold_left (fun p t => ps_set_state_el p (t / d) (t mod d) (sofZ S (b + off + Z.of_nat t))) (seq 0 (d * n)) (mkPs g (state_ p)).
+Definition ps_fill_blk (b : Z) (p : pset) : pset :=
+  let g := gm_fill_blk b (base p) in
+  let d := dim g in
+  let v := dcov g in
+  let n := components g in
+  let off := Z.of_nat (d * n + v * (v * n) + n) in
+  fold_left (fun p i => ps_set_state p i (mk d 1 (fun r _ => sofZ S (b + off + Z.of_nat (i * d + r))))) (seq 0 n) (mkPs g (state_ p)).
+(* the particle's own parts *)
+Definition ps_state_part (p : pset) (i : nat) : mx := e_rows_upto (ps_state p i) (dim (base p) - dn (base p)).
+Definition ps_noise_part (p : pset) (i : nat) : mx := e_rows_from (ps_state p i) (dim (base p) - dn (base p)).
 
 (* ------------------------------------------------------------ where the transcription is faithful
    (outside: Eigen assertion / undefined behaviour in the C++) *)
@@ -283,7 +462,8 @@ Definition gm_augment_self_defined (g : gm) : bool :=
 (* ------------------------------------------------------------ operation sequences *)
 Inductive gop :=
 | GFill (b : Z) | GCopy | GResize (c l ci : nat) | GAugment (q : mx)
-| GAugmentSelf.                       (* g.augmentWithNoise(g.covariance()) *)
+| GAugmentSelf                        (* g.augmentWithNoise(g.covariance()) *)
+| GFillEl (b : Z) | GFillBlk (b : Z). (* fill through the element / block accessors of every component *)
 Definition gm_apply (o : gop) (g : gm) : gm :=
   match o with
   | GFill b => gm_fill b g
@@ -291,6 +471,8 @@ Definition gm_apply (o : gop) (g : gm) : gm :=
   | GResize c l ci => gm_resize c l ci g
   | GAugment q => snd (gm_augment q g)
   | GAugmentSelf => snd (gm_augment (cov_ g) g)     (* the value a temporary copy of the argument would give *)
+  | GFillEl b => gm_fill_el b g
+  | GFillBlk b => gm_fill_blk b g
   end.
 Definition gop_defined (o : gop) (g : gm) : bool :=
   match o with
@@ -302,7 +484,7 @@ Definition gop_defined (o : gop) (g : gm) : bool :=
    the hidden virtual GaussianMixture::resize(c, l, ci) is reachable as well (NResizeBase) *)
 Inductive gaussop :=
 | NFill (b : Z) | NCopy | NResize (l ci : nat) | NAugment (q : mx)
-| NAugmentSelf | NResizeBase (c l ci : nat).
+| NAugmentSelf | NResizeBase (c l ci : nat) | NFillEl (b : Z) | NFillBlk (b : Z).
 Definition gauss_apply (o : gaussop) (g : gm) : gm :=
   match o with
   | NFill b => gm_fill b g
@@ -311,6 +493,8 @@ Definition gauss_apply (o : gaussop) (g : gm) : gm :=
   | NAugment q => snd (gm_augment q g)
   | NAugmentSelf => snd (gm_augment (cov_ g) g)
   | NResizeBase c l ci => gm_resize c l ci g
+  | NFillEl b => gm_fill_el b g
+  | NFillBlk b => gm_fill_blk b g
   end.
 Definition gaussop_defined (o : gaussop) (g : gm) : bool :=
   match o with
@@ -326,7 +510,8 @@ Inductive pop :=
 | PConcat (rhs : pset)                (* p += rhs, rhs a distinct object *)
 | PPlus (rhs : pset)                  (* p + rhs (the left operand is copied first) *)
 | PAugmentSelf                        (* p.augmentWithNoise(p.covariance()) *)
-| PConcatSelf.                        (* p += p *)
+| PConcatSelf                         (* p += p *)
+| PFillEl (b : Z) | PFillBlk (b : Z).
 Definition ps_apply (o : pop) (p : pset) : pset :=
   match o with
   | PFill b => ps_fill b p
@@ -337,6 +522,8 @@ Definition ps_apply (o : pop) (p : pset) : pset :=
   | PPlus rhs => ps_plus p rhs
   | PAugmentSelf => snd (ps_augment (cov_ (base p)) p)
   | PConcatSelf => ps_concat p p                    (* the value a temporary copy of the operand would give *)
+  | PFillEl b => ps_fill_el b p
+  | PFillBlk b => ps_fill_blk b p
   end.
 Definition pop_defined (o : pop) (p : pset) : bool :=
   match o with
@@ -351,6 +538,28 @@ Definition pop_defined (o : pop) (p : pset) : bool :=
 Definition gm_run := run_ops gop_defined gm_apply.
 Definition gauss_run := run_ops gaussop_defined gauss_apply.
 Definition ps_run := run_ops pop_defined ps_apply.
+
+(* pools of mixtures / Gaussians / particle sets.  Only particle sets have a binary operation
+   (operator+, ParticleSet.cpp:78-83: the left operand is taken by value, then += the right one) *)
+Definition layout := (nat * nat * nat * bool)%type.
+Definition gm_fresh (f : layout) : gm := let '(c, l, ci, q) := f in gm_ctor c l ci q.
+Definition gauss_fresh (f : layout) : gm := let '(_, l, ci, q) := f in gauss_ctor l ci q.
+Definition ps_fresh (f : layout) : pset := let '(c, l, ci, q) := f in ps_ctor c l ci q.
+Definition no_bin_def (_ _ : gm) : bool := false.
+Definition no_bin (x _ : gm) : gm := x.
+Definition gm_kstep := kstep gop_defined gm_apply gm_copy gm_fresh no_bin_def no_bin.
+Definition gauss_kstep := kstep gaussop_defined gauss_apply gm_copy gauss_fresh no_bin_def no_bin.
+Definition ps_kstep := kstep pop_defined ps_apply ps_copy ps_fresh (fun a b => ps_concat_defined b a) ps_plus.
+Definition gm_krun := krun gop_defined gm_apply gm_copy gm_fresh no_bin_def no_bin.
+Definition gauss_krun := krun gaussop_defined gauss_apply gm_copy gauss_fresh no_bin_def no_bin.
+Definition ps_krun := krun pop_defined ps_apply ps_copy ps_fresh (fun a b => ps_concat_defined b a) ps_plus.
+Definition gm_eval := eval gop_defined gm_apply gm_copy gm_fresh no_bin_def no_bin.
+Definition gauss_eval := eval gaussop_defined gauss_apply gm_copy gauss_fresh no_bin_def no_bin.
+Definition ps_eval := eval pop_defined ps_apply ps_copy ps_fresh (fun a b => ps_concat_defined b a) ps_plus.
+(* the pool a case starts from: constructor calls only *)
+Definition gm_pool0 (ls : list layout) : pool gm := map (fun f => (gm_fresh f, true)) ls.
+Definition gauss_pool0 (ls : list layout) : pool gm := map (fun f => (gauss_fresh f, true)) ls.
+Definition ps_pool0 (ls : list layout) : pool pset := map (fun f => (ps_fresh f, true)) ls.
 
 (* ------------------------------------------------------------ the invariant, executable *)
 Definition wfb (m : mx) : bool :=
